@@ -560,7 +560,7 @@ class Measurable:
                         matched = True
                     except NotFoundError:
                         continue
-                elif pop.name not in self.pop_names:
+                elif pop.name not in sc.promotetolist(self.pop_names):  # (a single name given as a string must not be matched by substring)
                     continue
                 else:
                     vars = pop.get_variable(self.measurable_name)  # If variable is missing and the pop was explicitly defined, raise the error
